@@ -1,6 +1,15 @@
-(* Property C09: VCD declarations appear in the hierarchy as declared.  Pinned so far: the bit-range
-   packing and the identifier-code arithmetic; header_roundtrip is not closed. *)
-From WV Require Import Model.Base Model.VcdBody Model.VcdHeader Proofs.HeaderProofs.
+(* Property C09: VCD declarations appear in the hierarchy as declared.  Pinned: the bit-range packing
+   (var_index_roundtrip), the identifier-code arithmetic (id_to_int_injective) and the name clause
+   (parse_name_range / parse_name_single / parse_name_plain): a `$var` reference made of a base name, any number of
+   bracket groups and a final numeric group `[i]` or `[msb:lsb]` - negative bounds allowed, up to 18 digits, with or
+   without separating blanks - is split by the model of vcd.rs parse_name / extract_suffix_index into exactly that bit
+   range, the last array group as the variable's name and the base name followed by the other groups as array scopes
+   (NameProofs.name_result).  NOT proved: the command loop of the header reader (scope stack, keyword tables - those are
+   regenerated from the source by the translator -, attributes, $date/$version/$timescale); decided by the
+   correspondence run against the real header reader and the oracle computed from the declaration tree. *)
+From Coq Require Import ZArith List. Import ListNotations.
+From WV Require Import Model.Base Model.VcdBody Model.VcdHeader Proofs.HeaderProofs Proofs.NameProofs.
+Open Scope N_scope.
 
 (* [msb:lsb] with negative bounds survives the packed VarIndex representation *)
 Check var_index_roundtrip :
@@ -11,5 +20,38 @@ Check var_index_roundtrip :
 Check id_to_int_injective :
   forall id id' v, id_to_int id = Some v -> id_to_int id' = Some v -> id = id'.
 
+(* base name b0 ++ [c], groups gs (each preceded by any number of blanks), s blanks, `[msb:lsb]`, t blanks *)
+Check parse_name_range :
+  forall b0 c gs s nm rdm nl rdl t,
+  c <> 32 -> c <> 93 -> ~ In 91 (b0 ++ [c]) -> Forall (fun sg : nat * list byte => ~ In 91 (snd sg)) gs ->
+  digits rdl -> (length rdl <= 18)%nat -> digits rdm -> (length rdm <= 18)%nat ->
+  (-2147483648 < zval nm rdm - zval nl rdl < 2147483648)%Z ->
+  parse_name (((b0 ++ [c]) ++ segs gs) ++ repeat 32 s ++ [91] ++ numtext nm rdm ++ [58] ++ numtext nl rdl ++ [93] ++ repeat 32 t)
+  = Ok (name_result b0 c gs (Some (zval nm rdm, zval nl rdl))).
+
+Check parse_name_single :
+  forall b0 c gs s n rd t,
+  c <> 32 -> c <> 93 -> ~ In 91 (b0 ++ [c]) -> Forall (fun sg : nat * list byte => ~ In 91 (snd sg)) gs ->
+  digits rd -> (length rd <= 18)%nat ->
+  parse_name (((b0 ++ [c]) ++ segs gs) ++ repeat 32 s ++ [91] ++ numtext n rd ++ [93] ++ repeat 32 t)
+  = Ok (name_result b0 c gs (Some (zval n rd, zval n rd))).
+
+Check parse_name_plain :
+  forall b0 c, c <> 32 -> c <> 93 -> ~ In 91 (b0 ++ [c]) -> parse_name (b0 ++ [c]) = Ok (b0 ++ [c], None, []).
+
+(* the vocabulary of the three statements *)
+Check (eq_refl : name_result = fun b0 c gs idx =>
+  match rev gs with
+  | [] => (b0 ++ [c], idx, [])
+  | (_, g) :: before => (G g, idx, (b0 ++ [c]) :: map (fun sg => G (snd sg)) (rev before))
+  end).
+Check (eq_refl : G = fun g => [91] ++ g ++ [93]).
+Check (eq_refl : numtext = fun neg rd => (if neg then [45] else []) ++ rev rd).
+Check (eq_refl : zval = fun neg rd => if neg then (- valr rd)%Z else valr rd).
+Check (eq_refl : valr = fun rd => fold_right (fun d acc => (Z.of_N (d - 48) + 10 * acc)%Z) 0%Z rd).
+
 Print Assumptions var_index_roundtrip.
 Print Assumptions id_to_int_injective.
+Print Assumptions parse_name_range.
+Print Assumptions parse_name_single.
+Print Assumptions parse_name_plain.
